@@ -109,3 +109,17 @@ func init() {
 		return map[string]interface{}{"res": r, "err": e}, nil
 	})
 }
+
+func init() {
+	register("collectReports", func(raw json.RawMessage) (interface{}, error) {
+		var a struct {
+			Args      cmd.VerifParseArgs
+			Reports   []cmd.VerifReport
+			EarlyExit bool
+		}
+		if err := json.Unmarshal(raw, &a); err != nil {
+			return nil, err
+		}
+		return cmd.VerifCollectReports(a.Args, a.Reports, a.EarlyExit), nil
+	})
+}
